@@ -28,9 +28,18 @@ ASSUMPTIONS = {
 }
 
 
+def _big_stack():
+    # the extracted model recurses over lists (slices of tens of thousands of elements in the deep tier)
+    import resource
+    try:
+        resource.setrlimit(resource.RLIMIT_STACK, (resource.RLIM_INFINITY, resource.RLIM_INFINITY))
+    except (ValueError, OSError):
+        pass
+
+
 def sh(cmd, cwd=None, env=None, timeout=7200, inp=None):
     p = subprocess.run(cmd, cwd=cwd, env=env, timeout=timeout, input=inp, shell=isinstance(cmd, str),
-                       stdout=subprocess.PIPE, stderr=subprocess.STDOUT, text=True)
+                       stdout=subprocess.PIPE, stderr=subprocess.STDOUT, text=True, preexec_fn=_big_stack)
     return p.returncode, p.stdout
 
 
@@ -162,6 +171,7 @@ def harness_bin(ctx, BUILD):
 
 def harness_env(ctx):
     env = dict(os.environ)
+    env["VERIF_TIER"] = ctx.tier
     if getattr(ctx, "coverdir", None):
         env["GOCOVERDIR"] = ctx.coverdir
     return env
